@@ -594,10 +594,14 @@ def exhaustive(ver, maxlen, caps=(1, 2), ntasks=3, kinds=(1, 2, 5), role=0, limi
 
 # ---------------------------------------------------------------- random schedules
 def rand_case(rng, ver, role=0, maxlen=40, flavour=None):
+    flavour = flavour or rng.choice(["mixed", "mixed", "window", "qos2", "ids", "stream", "stream", "wrap", "errors"])
     cap = rng.randint(1, 4)
+    if flavour == "stream" and rng.random() < 0.6:
+        cap = rng.randint(1, 2)
+    if role == 0 and rng.random() < 0.01:
+        cap = 0
     s = Sim(ver, cap, role != 0)
     ops = []
-    flavour = flavour or rng.choice(["mixed", "mixed", "window", "qos2", "ids", "stream", "wrap", "errors"])
     n = rng.randint(6, maxlen)
     next_t = 1
     explicit = flavour == "ids" or (flavour == "mixed" and rng.random() < 0.2)
@@ -607,7 +611,7 @@ def rand_case(rng, ver, role=0, maxlen=40, flavour=None):
         ops.append([12, rng.choice([65533, 65533, 65532, 65534] + ([65535] if rng.random() < 0.1 else []))])
         s.step(ops[-1])
     kinds = {"window": [1, 1, 1, 5, 5, 3, 2], "qos2": [2, 2, 2, 2, 1], "ids": [1, 2, 3, 4, 1, 2],
-             "stream": [7, 7, 1, 3, 6, 2, 5], "wrap": [1, 1, 2, 3], "errors": [1, 2, 3, 5, 7, 6],
+             "stream": [7, 7, 7, 1, 1, 3, 6, 2, 5], "wrap": [1, 1, 2, 3], "errors": [1, 2, 3, 5, 7, 6],
              "mixed": [1, 1, 2, 2, 3, 4, 5, 6, 7]}[flavour]
     if role == 0:
         # a server never sees the SUBACK/UNSUBACK (its dispatcher ignores them): such an entry jams the
@@ -695,9 +699,10 @@ def rand_case(rng, ver, role=0, maxlen=40, flavour=None):
             t = rng.choice(streams)
             sm = s.tasks[t].sm
             q = rng.random()
-            if sm["pend"] is not None and q < 0.25:
+            parked = s.tasks[t].st == "parked"
+            if sm["pend"] is not None and q < (0.4 if parked else 0.25):
                 op = [15, t]
-            elif q < 0.1:
+            elif q < (0.3 if parked else 0.1):
                 op = [14, t]
             else:
                 rem = s.srem or 10
@@ -755,9 +760,92 @@ def qos2_orders(rng, ver, role=0, count=200):
     return out
 
 
+def quiesce(s, ops, role, rounds=80):
+    """epilogue: lift back-pressure, acknowledge everything outstanding in order, resume every pending task,
+    release every receipt, until nothing changes"""
+    if s.wrb:
+        ops.append([8, 0])
+        s.step(ops[-1])
+    for _ in range(rounds):
+        before = len(ops)
+        for t in s.pending():
+            x = s.tasks[t]
+            if s.chans[x.arg][0] != OPEN:
+                ops.append([2, t])
+                s.step(ops[-1])
+        for t in s.receipts():
+            ops.append([6, t])
+            s.step(ops[-1])
+        for t, x in sorted(s.tasks.items()):
+            if x.sm is not None and x.sm["alive"] and s.srem and x.sm["inproc"] and s.io == 0:
+                ops.append([13, t, s.srem])
+                s.step(ops[-1])
+        if s.io == 0 and s.inflight:
+            i, _, tp = s.inflight[0]
+            if not (role == 0 and tp in (4, 5)):
+                ops.append([4, tp, i])
+                s.step(ops[-1])
+        if len(ops) == before:
+            break
+    return ops
+
+
+def quiesced_cases(rng, ver, role=0, count=1000):
+    out = []
+    for _ in range(count):
+        c = rand_case(rng, ver, role, maxlen=rng.choice([8, 12, 20, 30]),
+                      flavour=rng.choice(["window", "window", "mixed", "ids", "stream", "qos2"]))
+        fs = [[int(x) for x in f.split(",")] for f in c.split(";")]
+        s = Sim(ver, fs[0][0], role != 0)
+        ops = fs[1:]
+        for op in ops:
+            s.step(op)
+        quiesce(s, ops, role)
+        out.append(line([fs[0]] + ops))
+    return out
+
+
+def stuck_report(ver, case, obs):
+    """implementation observation of a quiesced case: None, or (why, task) when a task is still parked although
+    the connection is open, nothing is in flight, no back-pressure, cap > 0.  `why` lists the known causes seen in
+    the schedule (replayed on the Sim): Q woken waiter dropped, Q2 ready() absorbed a wake, Qerr woken waiter
+    ended with an error without sending"""
+    last = [int(x) for x in obs.split(";")[-1].split(",")]
+    if len(last) < 9 or 255 not in last:
+        return None
+    inflight, _, cap, wrb, _, _, _, is_open = last[:8]
+    if not is_open or wrb or inflight or cap == 0:
+        return None
+    body = last[8:last.index(255)]
+    pend = [body[j] for j in range(0, len(body) - 1, 2) if body[j] < 100 and body[j + 1] == 1]
+    if not pend:
+        return None
+    fs = [[int(x) for x in f.split(",")] if f else [] for f in case.split(";")]
+    s = Sim(ver, fs[0][0] if fs[0] else 1, len(fs[0]) > 1 and fs[0][1] != 0)
+    why = set()
+    for op in fs[1:]:
+        t = op[1] if len(op) > 1 else None
+        was_woken = op and op[0] in (2, 3) and t in s.tasks and s.tasks[t].status() == 1 and s.woken(t)
+        s.step(op)
+        if was_woken:
+            x = s.tasks[t]
+            if op[0] == 3:
+                why.add("Q")
+            elif x.k == 5:
+                why.add("Q2")
+            elif x.st == "done" and x.arg != 2:
+                why.add("Qerr")
+    # only tasks that are really parked in the window queue count, and only if nobody was woken and has not
+    # run yet (the epilogue may have been cut short)
+    parked = [t for t in pend if t in s.tasks and s.tasks[t].st in ("parked", "ready")]
+    if not parked or any(s.chans[s.tasks[t].arg][0] != OPEN for t in s.pending()):
+        return None
+    return ("+".join(sorted(why)) or "UNEXPLAINED", parked[0])
+
+
 SEEDS = [
     # window race: waiter woken by an ack, a fresh sender slips in before it resumes
-    "1,0;1,1,1,0;1,2,1,0;4,1,1;1,3,1,0;2,2;2,1;4,1,3;2,3;2,2;4,1,2;2,2",
+    "1,0;1,1,1,0;1,2,1,0;4,1,1;1,3,1,0;2,2;2,1;4,1,2;2,3;2,2;4,1,3;2,2",
     # Q: woken waiter dropped before it resumes
     "1,0;1,1,1,0;1,2,1,0;1,3,1,0;4,1,1;3,2;2,1;2,3",
     # Q2: ready() absorbs a wake
@@ -773,6 +861,13 @@ SEEDS = [
     "2,0;1,1,7,0,10;13,1,4;8,1;13,1,3;10;13,1,0",
     "2,0;1,1,7,0,4;13,1,5;1,2,1,0",
     "1,0;12,65535;1,1,1,0;1,2,7,0,3;13,2,1",
+    # a streamed send parked behind the window whose StreamingPayload / pending chunk send goes away first
+    "1,0;1,1,1,0;1,2,7,0,5;14,2;4,1,1;2,2;2,1",
+    "1,0;1,1,1,0;1,2,7,0,5;13,2,2;15,2;4,1,1;2,2;13,2,2",
+    "1,0;1,1,1,0;1,2,7,0,5;13,2,2;4,1,1;2,2;13,2,2;13,2,3;4,1,2;2,2",
+    "1,0;1,1,1,0;1,2,7,0,5;3,2;13,2,2",
+    # the window is closed from the start
+    "0,0;1,1,1,0;1,2,5,0;9,1;2,1;2,2",
 ]
 
 
